@@ -201,7 +201,9 @@ func (o optimizer[V]) Optimize(ast parser2.AST) parser2.AST {
 				return ast
 			}
 			v := o.g.closureHandler.FromClosure(Function[V]{
-				Func:   closureFunc,
+				Func: func(st Stack[V], cs []V) (V, error) {
+					return CatchPanic(closureFunc, st, cs)
+				},
 				Args:   len(cl.Names),
 				IsPure: true,
 			})
